@@ -29,7 +29,85 @@ func templateJobs(harness string, specs []tplSpec, params map[string]string) []*
 	return jobs
 }
 
+// twoRunJobs: every template bound to L0 and L1; L1 shares all holes of L0 except the
+// classes listed in vary (self-composition).
+func twoRunJobs(harness string, specs []tplSpec, vary string, params map[string]string) []*Job {
+	var jobs []*Job
+	for _, s := range specs {
+		t0, err := ParseTemplate("L0", s.Text)
+		if err != nil {
+			panic(fmt.Sprintf("template %s: %v", s.Name, err))
+		}
+		t1, _ := ParseTemplate("L1", s.Text)
+		p := map[string]string{"share.L1": "L0", "vary.L1": vary}
+		for k, v := range params {
+			p[k] = v
+		}
+		jobs = append(jobs, &Job{Name: s.Name, Harness: harness, Lines: map[string]*Template{"L0": t0, "L1": t1}, Params: p})
+	}
+	return jobs
+}
+
 func init() {
+	propChecks["C02"] = &PropCheck{
+		ID:    "C02",
+		Title: "Output is independent of the redacted values (non-interference)",
+		Jobs: func(e *Engine, tier string) []*Job {
+			return twoRunJobs("H_c02", corpusFor(tier, nil), "S,D,O,B64,N,B,IP", map[string]string{})
+		},
+		Functions: walkerFunctions,
+		Witness:   []string{"emitted"},
+		Bounds: map[string]any{
+			"templates":      "as C01 (engine/spec.go corpus); each template is run twice (self-composition) with all sensitive literals re-assigned",
+			"literal_length": "unbounded (SMT strings), the two assignments are unrelated except for the lexical class",
+			"flags":          "redactNumbers, redactBooleans, redactIPs, redactNamespaces, replacement text: symbolic, equal in both runs",
+			"outside":        "encrypt mode (C10), selective mode (C14), field-name mode (C15)",
+		},
+		Assumptions: []string{
+			"each literal keeps its lexical class: leading '$' status, IsEmail(s) agrees (the real classifier is executed on both values); numbers/booleans/IP arbitrary only when their flag is on",
+			"user field names and namespace parts are single path components outside the operator vocabulary (class G)",
+		},
+		Trusted: commonTrusted,
+	}
+	treeBounds := func(extra string) map[string]any {
+		return map[string]any{
+			"templates":      "engine/spec.go corpus (as C01) plus odd-shape templates (nulls, empty / nested arrays, operators holding unexpected value kinds)",
+			"literal_length": "unbounded (SMT strings)",
+			"flags":          "redactNumbers, redactBooleans, redactIPs, redactNamespaces, replacement text: symbolic",
+			"oracle":         "independent ordered parser + reference serialiser in /verif/harness/zz_verif_tree.go, executed symbolically together with the real code",
+			"outside":        extra,
+		}
+	}
+	propChecks["C03"] = &PropCheck{
+		ID: "C03", Title: "Redaction preserves the JSON shape of every line",
+		Jobs: func(e *Engine, tier string) []*Job {
+			return templateJobs("H_c03", append(corpusFor(tier, nil), oddCorpus(tier)...), map[string]string{})
+		},
+		Functions: walkerFunctions, Witness: []string{"emitted"},
+		Bounds:      treeBounds("--redactFieldNames (renames keys by design); duplicate sibling keys; inputs as bytes (the JSON tokenizer is behind the Decoder contract)"),
+		Assumptions: []string{"user field names of class G are single path components outside the operator vocabulary; names of class F are arbitrary (may collide with the vocabulary)"},
+		Trusted:     commonTrusted,
+	}
+	propChecks["C04"] = &PropCheck{
+		ID: "C04", Title: "Nothing outside the redaction zones is altered (insight preservation)",
+		Jobs: func(e *Engine, tier string) []*Job {
+			return templateJobs("H_c04", append(corpusFor(tier, nil), oddCorpus(tier)...), map[string]string{})
+		},
+		Functions: walkerFunctions, Witness: []string{"emitted"},
+		Bounds:      treeBounds("number formatting inside encoding/json (number text is passed through as json.Number by contract)"),
+		Assumptions: []string{"zones as written in harness/zz_verif_tree.go from the property text"},
+		Trusted:     commonTrusted,
+	}
+	propChecks["C05"] = &PropCheck{
+		ID: "C05", Title: "Type-aware placeholders: each redacted leaf stays a valid member of its class",
+		Jobs: func(e *Engine, tier string) []*Job {
+			return templateJobs("H_c05", corpusFor(tier, nil), map[string]string{})
+		},
+		Functions: walkerFunctions, Witness: []string{"emitted"},
+		Bounds:      treeBounds("encrypt mode; selective mode"),
+		Assumptions: []string{"'e-mail shaped' = the WHATWG e-mail regular expression with length 3..254 (harness/zz_verif_h_tree.go)"},
+		Trusted:     commonTrusted,
+	}
 	propChecks["C01"] = &PropCheck{
 		ID:    "C01",
 		Title: "Sensitive literal values never survive redaction (full-redaction mode)",
